@@ -1,18 +1,24 @@
 (* SchedLoopModel: what the faithful model refutes.
    1. wake-before-push (push_first = false, the order of seeded change C01-3): a coroutine is left behind in the global queue
       of a sleeping worker with no wake-up under way - until the worker's timeout (work_steal), for ever (no work_steal).
-   2. THE CODE AS IT IS: a coroutine in the global queue of worker w is not bounded by w's local.pop calls: while the local
-      queue never runs empty (a coroutine that keeps yielding) run_queued_tasks neither calls collect_global nor returns
-      to select, although the eventfd is pending all the time.
-   3. THE CODE AS IT IS: a coroutine made runnable by the I/O timeout handler (schedule_timer runs after
-      run_queued_tasks) sleeps in the local queue for the time to the next I/O timer, whatever the configured timeout. *)
+   2. THE LOOP BEFORE FIX e723520 (finding F34; budgeted = false): a coroutine in the global queue of worker w is not bounded
+      by w's local.pop calls: while the local queue never runs empty (a coroutine that keeps yielding) run_queued_tasks
+      neither calls collect_global nor returns to select, although the eventfd is pending all the time.
+   3. THE LOOP BEFORE FIX e723520: a coroutine made runnable by the I/O timeout handler (schedule_timer runs after
+      run_queued_tasks) sleeps in the local queue for the time to the next I/O timer, whatever the configured timeout.
+   Both were replayed on the real runtime and repaired (RUN_BUDGET / GLOBAL_INTERVAL, has_local_tasks in select); for the
+   repaired loop (budgeted = true) the same schedules end well: Rt/SchedLoopRuns.v, and the statements are theorems:
+   Rt/SchedLoopBudget.v. *)
 From Coq Require Import List Arith ZArith NArith Bool Lia.
 Import ListNotations.
 Require Import MayV.Rt.SchedModel MayV.Rt.SchedInv MayV.Rt.SchedLoopModel MayV.Rt.SchedLoopInv.
 
-Definition Pcur (t : N) := {| push_first := true; work_steal := true; cfg_tmo := t |}.
-Definition Pwrong (t : N) := {| push_first := false; work_steal := true; cfg_tmo := t |}.
-Definition Pwrong_nosteal (t : N) := {| push_first := false; work_steal := false; cfg_tmo := t |}.
+(* the code as it is (RUN_BUDGET = 256, GLOBAL_INTERVAL = 64); the loop before fix e723520 (no budget); the wrong order of
+   push and eventfd write, with and without work_steal *)
+Definition Pcur (t : N) := {| push_first := true; work_steal := true; cfg_tmo := t; budgeted := true; budget := 256; interval := 64 |}.
+Definition Pold (t : N) := {| push_first := true; work_steal := true; cfg_tmo := t; budgeted := false; budget := 0; interval := 0 |}.
+Definition Pwrong (t : N) := {| push_first := false; work_steal := true; cfg_tmo := t; budgeted := true; budget := 256; interval := 64 |}.
+Definition Pwrong_nosteal (t : N) := {| push_first := false; work_steal := false; cfg_tmo := t; budgeted := true; budget := 256; interval := 64 |}.
 
 Definition lafter (P : params) (n : nat) (tr : list laction) : lst :=
   match lruns P (linit n) tr with Some l => l | None => linit n end.
@@ -31,12 +37,12 @@ Definition run_wrong : list laction :=
    LPoll 0 false;                                      (* epoll_wait with the configured timeout *)
    LBase (AStep 1); LBase (AStep 1)].                  (* only now global.push(co); the spawner is done *)
 
-Lemma run_wrong_ok t : lruns (Pwrong t) (linit 1) run_wrong <> None.
+Lemma run_wrong_ok p : lruns (Pwrong (Npos p)) (linit 1) run_wrong <> None.
 Proof. vm_compute. discriminate. Qed.
 
-Lemma wrong_state t : let l := lafter (Pwrong t) 1 run_wrong in
+Lemma wrong_state p : let l := lafter (Pwrong (Npos p)) 1 run_wrong in
   wpc l 0 = PSleep /\ gq (base l) 0 = [1] /\ evfd l 0 = false /\ owed l 0 = 0 /\ anon l 0 = 0 /\ pre l 0 = 0 /\
-  tpc (base l) 1 = Idle /\ stk (base l) 1 = [] /\ dl l 0 = Some (rnd t) /\ now l = 0%N.
+  tpc (base l) 1 = Idle /\ stk (base l) 1 = [] /\ dl l 0 = Some (rnd (Npos p)) /\ now l = 0%N.
 Proof. vm_compute. repeat split; reflexivity. Qed.
 
 (* without work_steal run_queued_tasks does not look at the global queue: the timeout does not help either *)
@@ -54,7 +60,7 @@ Lemma wrong_nosteal_state : let l := lafter (Pwrong_nosteal 10000000) 1 run_wron
   tpc (base l) 1 = Idle /\ nsel l 0 = 4 /\ now l = 30000000%N /\ ngrab l 1 = 0.
 Proof. vm_compute. repeat split; reflexivity. Qed.
 
-(* the code as it is: coroutine 1 waits for I/O with a timeout; the timeout handler of schedule_timer resumes it AFTER
+(* the loop before the fix: coroutine 1 waits for I/O with a timeout; the timeout handler of schedule_timer resumes it AFTER
    run_queued_tasks; it yields (or wakes another coroutine): local push; select returns, the next epoll_wait sleeps for the
    time T to the next I/O timer with a runnable coroutine in the local queue and no wake-up under way *)
 Definition run_timer (T : N) : list laction :=
@@ -65,11 +71,11 @@ Definition run_timer (T : N) : list laction :=
    LTmTake 0 1; LResume 0;                                                                    (* the I/O timer expires *)
    LBase (AYield 0); LBase (KLocal 0); LBase (KSubscribed 0); LCoRet 0;                       (* yield_now(): local push *)
    LTmDone 0 (Some T); LPoll 0 false].
-Lemma run_timer_ok T t : lruns (Pcur t) (linit 1) (run_timer T) <> None.
+Lemma run_timer_ok T t : lruns (Pold t) (linit 1) (run_timer (Npos T)) <> None.
 Proof. vm_compute. discriminate. Qed.
-Lemma timer_state T t : let l := lafter (Pcur t) 1 (run_timer T) in
+Lemma timer_state T t : let l := lafter (Pold t) 1 (run_timer (Npos T)) in
   wpc l 0 = PSleep /\ lq (base l) 0 = [1] /\ gq (base l) 0 = [] /\ evfd l 0 = false /\ owed l 0 = 0 /\ anon l 0 = 0 /\
-  dl l 0 = Some (rnd T) /\ now l = 0%N /\ tmo l 0 = Some T.
+  dl l 0 = Some (rnd (Npos T)) /\ now l = 0%N /\ tmo l 0 = Some (Npos T).
 Proof. vm_compute. repeat split; reflexivity. Qed.
 
 (* worker 0 of one; coroutine 1 is the only local one, coroutine 2 waits in the global queue with the eventfd pending *)
@@ -90,29 +96,29 @@ Ltac sym_step :=
   eexists; split; [reflexivity|]; unfold shape, same_counters; cbn; hs H1 H2 H3 H4 H5 H6 H7 H8 H9 H10; cbn;
   repeat split; reflexivity.
 
-Lemma spin1 t l : shape l (PCo RRun) [FRun 1] [] [] -> exists l', lstep (Pcur t) l (LBase (AYield 0)) = Some l' /\
+Lemma spin1 t l : shape l (PCo RRun) [FRun 1] [] [] -> exists l', lstep (Pold t) l (LBase (AYield 0)) = Some l' /\
   shape l' (PCo RRun) [FKer 1 K0] [1] [] /\ same_counters l l' /\ npop l' 0 = npop l 0.
 Proof. sym_step. Qed.
-Lemma spin2 t l : shape l (PCo RRun) [FKer 1 K0] [1] [] -> exists l', lstep (Pcur t) l (LBase (KLocal 0)) = Some l' /\
+Lemma spin2 t l : shape l (PCo RRun) [FKer 1 K0] [1] [] -> exists l', lstep (Pold t) l (LBase (KLocal 0)) = Some l' /\
   shape l' (PCo RRun) [FKer 1 KEnd] [] [1] /\ same_counters l l' /\ npop l' 0 = npop l 0.
 Proof. sym_step. Qed.
-Lemma spin3 t l : shape l (PCo RRun) [FKer 1 KEnd] [] [1] -> exists l', lstep (Pcur t) l (LBase (KSubscribed 0)) = Some l' /\
+Lemma spin3 t l : shape l (PCo RRun) [FKer 1 KEnd] [] [1] -> exists l', lstep (Pold t) l (LBase (KSubscribed 0)) = Some l' /\
   shape l' (PCo RRun) [] [] [1] /\ same_counters l l' /\ npop l' 0 = npop l 0.
 Proof. sym_step. Qed.
-Lemma spin4 t l : shape l (PCo RRun) [] [] [1] -> exists l', lstep (Pcur t) l (LCoRet 0) = Some l' /\
+Lemma spin4 t l : shape l (PCo RRun) [] [] [1] -> exists l', lstep (Pold t) l (LCoRet 0) = Some l' /\
   shape l' PRun [] [] [1] /\ same_counters l l' /\ npop l' 0 = npop l 0.
 Proof. sym_step. Qed.
-Lemma spin5 t l : shape l PRun [] [] [1] -> exists l', lstep (Pcur t) l (LPop 0) = Some l' /\
+Lemma spin5 t l : shape l PRun [] [] [1] -> exists l', lstep (Pold t) l (LPop 0) = Some l' /\
   shape l' (PRes RRun) [] [1] [] /\ same_counters l l' /\ npop l' 0 = S (npop l 0).
 Proof. sym_step. Qed.
-Lemma spin6 t l : shape l (PRes RRun) [] [1] [] -> exists l', lstep (Pcur t) l (LResume 0) = Some l' /\
+Lemma spin6 t l : shape l (PRes RRun) [] [1] [] -> exists l', lstep (Pold t) l (LResume 0) = Some l' /\
   shape l' (PCo RRun) [FRun 1] [] [] /\ same_counters l l' /\ npop l' 0 = npop l 0.
 Proof. sym_step. Qed.
 
 Definition cycle : list laction :=
   [LBase (AYield 0); LBase (KLocal 0); LBase (KSubscribed 0); LCoRet 0; LPop 0; LResume 0].
 
-Lemma cycle_spin t l : shape l (PCo RRun) [FRun 1] [] [] -> exists l', lruns (Pcur t) l cycle = Some l' /\
+Lemma cycle_spin t l : shape l (PCo RRun) [FRun 1] [] [] -> exists l', lruns (Pold t) l cycle = Some l' /\
   shape l' (PCo RRun) [FRun 1] [] [] /\ same_counters l l' /\ npop l' 0 = S (npop l 0).
 Proof.
   intro S0. unfold cycle. cbn [lruns].
@@ -127,7 +133,7 @@ Qed.
 
 Fixpoint rep {X} (k : nat) (l : list X) : list X := match k with 0 => [] | S k' => l ++ rep k' l end.
 
-Lemma spin_forever t k : forall l, shape l (PCo RRun) [FRun 1] [] [] -> exists l', lruns (Pcur t) l (rep k cycle) = Some l' /\
+Lemma spin_forever t k : forall l, shape l (PCo RRun) [FRun 1] [] [] -> exists l', lruns (Pold t) l (rep k cycle) = Some l' /\
   shape l' (PCo RRun) [FRun 1] [] [] /\ same_counters l l' /\ npop l' 0 = npop l 0 + k.
 Proof.
   induction k as [|k IH]; intros l S; cbn [rep].
@@ -143,19 +149,19 @@ Definition run_starve : list laction :=
   [LPoll 0 false; LBase (ASpawn 1 1 None false); LBase (AStep 1); LBase (AStep 1); LBase (AStep 1);
    LWake 0 false; LEvRead 0; LBulkGrab 0; LBulkEnd 0; LPut 0; LBulkEnd 0; LEvDone 0; LPop 0; LResume 0;
    LBase (ASpawn 1 2 None false); LBase (AStep 1); LBase (AStep 1); LBase (AStep 1)].
-Lemma run_starve_ok t : lruns (Pcur t) (linit 1) run_starve <> None.
+Lemma run_starve_ok t : lruns (Pold t) (linit 1) run_starve <> None.
 Proof. vm_compute. discriminate. Qed.
-Lemma starve_state t : let l := lafter (Pcur t) 1 run_starve in
+Lemma starve_state t : let l := lafter (Pold t) 1 run_starve in
   shape l (PCo RRun) [FRun 1] [] [] /\ ngrab l 2 = 0 /\ tpc (base l) 1 = Idle /\ owed l 0 = 0 /\ anon l 0 = 0 /\ npop l 0 = 1.
 Proof. vm_compute. repeat split; reflexivity. Qed.
 
 (* for every k: after k more local.pop calls of the worker coroutine 2 is still in the global queue, not collected, no
    collect_global and no round completed, the eventfd pending - and every thread involved keeps taking steps *)
-Theorem global_queue_starves t k : exists l l', LReach (Pcur t) 1 l /\ lruns (Pcur t) l (rep k cycle) = Some l' /\
+Theorem global_queue_starves t k : exists l l', LReach (Pold t) 1 l /\ lruns (Pold t) l (rep k cycle) = Some l' /\
   In 2 (gq (base l) 0) /\ In 2 (gq (base l') 0) /\ evfd l' 0 = true /\
   npop l' 0 = npop l 0 + k /\ ngrab l' 2 = 0 /\ ncoll l' 0 = ncoll l 0 /\ nsel l' 0 = nsel l 0.
 Proof.
-  destruct (starve_state t) as (S & G & _). set (l := lafter (Pcur t) 1 run_starve) in *.
+  destruct (starve_state t) as (S & G & _). set (l := lafter (Pold t) 1 run_starve) in *.
   destruct (spin_forever t k l S) as (l' & R & S' & (A1 & A2 & A3) & A4).
   exists l, l'. split; [apply lafter_reach, run_starve_ok|]. split; [exact R|].
   destruct S as (_ & _ & _ & _ & _ & _ & _ & _ & Q & _). destruct S' as (_ & _ & _ & _ & _ & _ & _ & _ & Q' & E').
@@ -166,19 +172,19 @@ Qed.
 Require Import MayV.Rt.SchedLoopThm.
 
 (* 1. with the eventfd written before the push the no-lost-wake-up statement is false *)
-Theorem wake_before_push_loses_the_wakeup t :
-  ~ (forall l w, LReach (Pwrong t) 1 l -> wpc l w = PSleep -> gq (base l) w <> [] -> evfd l w = true \/ pusher_in_flight l w).
+Theorem wake_before_push_loses_the_wakeup p :
+  ~ (forall l w, LReach (Pwrong (Npos p)) 1 l -> wpc l w = PSleep -> gq (base l) w <> [] -> evfd l w = true \/ pusher_in_flight l w).
 Proof.
-  intro H. destruct (wrong_state t) as (S & G & E & O & A & _).
-  specialize (H _ 0 (lafter_reach _ _ _ (run_wrong_ok t)) S). rewrite G in H.
+  intro H. destruct (wrong_state p) as (S & G & E & O & A & _).
+  specialize (H _ 0 (lafter_reach _ _ _ (run_wrong_ok p)) S). rewrite G in H.
   destruct (H ltac:(discriminate)) as [X|[X|X]]; [congruence | rewrite O in X; lia | rewrite A in X; lia].
 Qed.
 
 (* the witness state itself: nobody is on the way to wake the worker, the coroutine waits for the timeout of the epoll_wait *)
-Theorem wake_before_push_witness t : exists l, LReach (Pwrong t) 1 l /\
+Theorem wake_before_push_witness p : exists l, LReach (Pwrong (Npos p)) 1 l /\
   wpc l 0 = PSleep /\ gq (base l) 0 = [1] /\ evfd l 0 = false /\ owed l 0 = 0 /\ anon l 0 = 0 /\ pre l 0 = 0 /\
-  tpc (base l) 1 = Idle /\ stk (base l) 1 = [] /\ dl l 0 = Some (rnd t) /\ now l = 0%N.
-Proof. eexists. split; [exact (lafter_reach _ _ _ (run_wrong_ok t)) | exact (wrong_state t)]. Qed.
+  tpc (base l) 1 = Idle /\ stk (base l) 1 = [] /\ dl l 0 = Some (rnd (Npos p)) /\ now l = 0%N.
+Proof. eexists. split; [exact (lafter_reach _ _ _ (run_wrong_ok p)) | exact (wrong_state p)]. Qed.
 
 (* without work_steal the timeout does not help: three timeouts later the coroutine is still in the global queue *)
 Theorem wake_before_push_witness_nosteal : exists l, LReach (Pwrong_nosteal 10000000) 1 l /\
@@ -186,19 +192,19 @@ Theorem wake_before_push_witness_nosteal : exists l, LReach (Pwrong_nosteal 1000
   tpc (base l) 1 = Idle /\ nsel l 0 = 4 /\ now l = 30000000%N /\ ngrab l 1 = 0.
 Proof. eexists. split; [exact (lafter_reach _ _ _ run_wrong_nosteal_ok) | exact wrong_nosteal_state]. Qed.
 
-(* 2. the code as it is: no number B of local.pop calls (iterations of 'work) of its worker bounds the wait of a coroutine in
+(* 2. the loop before the fix: no number B of local.pop calls (iterations of 'work) of its worker bounds the wait of a coroutine in
    the global queue *)
 Theorem global_queue_not_bounded_by_pops t B :
-  ~ (forall l l' tr c w, LReach (Pcur t) 1 l -> lruns (Pcur t) l tr = Some l' -> In c (gq (base l) w) ->
+  ~ (forall l l' tr c w, LReach (Pold t) 1 l -> lruns (Pold t) l tr = Some l' -> In c (gq (base l) w) ->
        npop l w + B <= npop l' w -> ngrab l c < ngrab l' c).
 Proof.
   intro H. destruct (global_queue_starves t B) as (l & l' & R & RUN & I & _ & _ & NP & G & _).
   specialize (H l l' _ 2 0 R RUN I). rewrite NP, G in H. specialize (H (le_n _)). lia.
 Qed.
 
-(* 3. the code as it is: a worker can sleep over a non-empty local queue with no wake-up under way, for the time T to the next
+(* 3. the loop before the fix: a worker can sleep over a non-empty local queue with no wake-up under way, for the time T to the next
    I/O timer - whatever the configured poll timeout t is *)
-Theorem local_queue_wait_not_bounded_by_poll_timeout t T : exists l, LReach (Pcur t) 1 l /\
+Theorem local_queue_wait_not_bounded_by_poll_timeout t T : exists l, LReach (Pold t) 1 l /\
   wpc l 0 = PSleep /\ lq (base l) 0 = [1] /\ gq (base l) 0 = [] /\ evfd l 0 = false /\ owed l 0 = 0 /\ anon l 0 = 0 /\
-  dl l 0 = Some (rnd T) /\ now l = 0%N /\ tmo l 0 = Some T.
+  dl l 0 = Some (rnd (Npos T)) /\ now l = 0%N /\ tmo l 0 = Some (Npos T).
 Proof. eexists. split; [exact (lafter_reach _ _ _ (run_timer_ok T t)) | exact (timer_state T t)]. Qed.
